@@ -972,6 +972,17 @@ void h_setstring_jsonstring(void) {
   char c0 = src[0], c1 = src[1], c2 = src[2];
   size_t size = in_size();
   __CPROVER_assume(size <= 3);
+  struct VariantData v;
+  v.type_ = 0;
+  v.next_ = 0;
+#ifdef SETSTR_CSTR /* a copied zero-terminated string: its size is strlen */
+  __CPROVER_assume((size < 1 || c0 != 0) && (size < 2 || c1 != 0) && (size < 3 || c2 != 0));
+  src[size] = 0;
+  struct ZeroTerminatedRamString s;
+  s.str_ = src;
+  _Bool ok = VariantData__setString_ZeroTerminatedRamString(&v, s, rm);
+  COVER(ok && size == 3); COVER(ok && size == 0);
+#else
   struct JsonStringAdapter s;
   s._b_SizedRamString.str_ = src;
   s._b_SizedRamString.size_ = size;
@@ -980,11 +991,9 @@ void h_setstring_jsonstring(void) {
 #else
   s.linked_ = 0;
 #endif
-  struct VariantData v;
-  v.type_ = 0;
-  v.next_ = 0;
   _Bool ok = VariantData__setString_JsonStringAdapter__JsonStringAdapter_ResourceManager_p(&v, s, rm);
   COVER(ok && size == 3); COVER(ok && size == 0); COVER(ok && size == 2 && c0 == 0);
+#endif
 #if SCEN_LINKED
   CHECK(ok && g_alloc_calls == 0, "C14: a linked string is kept by address: no allocation, cannot fail");
 #else
@@ -1029,10 +1038,18 @@ void h_pool_share_release(void) {
   struct StringPool sp;
   struct Allocator *a = verif_allocator(0);
   g_expected_allocator = a;
+#ifdef POOL_E2E_CSTR
+  char B[3];
+#else
   char B[2];
+#endif
   B[0] = in_char(); B[1] = in_char();
   size_t nA = in_size(), nB = in_size();
   __CPROVER_assume(nA <= 2 && nB <= 2);
+#ifdef POOL_E2E_CSTR /* a zero-terminated source: nB = strlen(B) */
+  __CPROVER_assume((nB < 1 || B[0] != 0) && (nB < 2 || B[1] != 0));
+  B[nB] = 0;
+#endif
   size_t one = 1 + (nA > 5);
   ref_t refs0 = (ref_t)in_u32();
   __CPROVER_assume(refs0 >= 1 && (uint64_t)refs0 < REF_MAX); /* WF_STRINGS + caller obligation L-C06 */
@@ -1043,11 +1060,21 @@ void h_pool_share_release(void) {
   r1->data[nA] = 0;
   sp.strings_ = r1;
   _Bool equal = nA == nB && (nA < 1 || a0 == B[0]) && (nA < 2 || a1 == B[1]);
+#ifdef POOL_E2E_CSTR
+  struct ZeroTerminatedRamString sB;
+  sB.str_ = B;
+  Node *r2 = StringPool__add_ZeroTerminatedRamString(&sp, sB, a);
+  COVER(!equal && nA == 2 && nB == 1 && a0 == B[0] && a1 == 0); /* the pooled string continues behind a NUL where the C string ends */
+#else
   struct SizedRamString sB;
   sB.str_ = B; sB.size_ = nB;
   Node *r2 = StringPool__add_SizedRamString(&sp, sB, a);
+#endif
   COVER(equal && nA == 2); COVER(!equal && r2 != 0 && nA == nB && nA == 2); COVER(!equal && r2 == 0); COVER(equal && nA == 0); COVER(equal && refs0 == 1);
-  COVER(!equal && nA == 2 && nB == 2 && a0 == B[0]); COVER(equal && nA == 2 && a0 == 0);
+  COVER(!equal && nA == 2 && nB == 2 && a0 == B[0]);
+#ifndef POOL_E2E_CSTR
+  COVER(equal && nA == 2 && a0 == 0);
+#endif
   if (equal) {
     CHECK(r2 == r1 && g_alloc_calls == 0 && g_live_blocks == 1, "C06: equal copied strings are stored once (no second allocation, cannot fail)");
 #ifdef CANARY_POOL_E2E
